@@ -111,6 +111,25 @@ def check_proofs(P, ev):
             for a in b:
                 if a.split(".")[-1] not in {x.split(".")[-1] for x in ALLOWED_AXIOMS}:
                     problems.append("theorem %s depends on non-allowlisted axiom %s" % (t, a))
+    # thorough tier: independent re-check of the compiled closure with coqchk, axioms listed by -o
+    if os.environ.get("VERIF_COQCHK") == "1":
+        mod = "DesVerif." + P.COQ_PROP[:-2].replace("/", ".")
+        rc, out2 = sh("coqchk -silent -o -Q . DesVerif %s" % mod, cwd=COQ, timeout=3000)
+        m = re.search(r"\* Axioms:(.*?)\n\s*\n\* Constants", out2, flags=re.S)
+        ax_txt = m.group(1).strip() if m else "?"
+        ev["coqchk"] = {"exit": rc, "axioms": ax_txt,
+                        "type_in_type": "relying on type-in-type: <none>" in out2,
+                        "unsafe_fix": "unsafe (co)fixpoints: <none>" in out2,
+                        "positivity": "positivity is assumed: <none>" in out2}
+        if rc != 0:
+            problems.append("coqchk rejects the compiled closure of %s:\n%s" % (mod, "\n".join(out2.splitlines()[-10:])))
+        elif ax_txt != "<none>":
+            names = [l.split(":")[0].strip() for l in ax_txt.splitlines() if l.strip()]
+            for a in names:
+                if a.split(".")[-1] not in {x.split(".")[-1] for x in ALLOWED_AXIOMS}:
+                    problems.append("coqchk: closure of %s depends on non-allowlisted axiom %s" % (mod, a))
+        if rc == 0 and not all(ev["coqchk"][k] for k in ("type_in_type", "unsafe_fix", "positivity")):
+            problems.append("coqchk: closure of %s relies on a switched-off kernel check" % mod)
     # obligations = Qed-closed statements in the property's dependency closure
     nq = 0
     for d in P.COQ_DIRS + ["Properties"]:
@@ -333,6 +352,8 @@ def main():
         else:
             i += 1
     seed = int(os.environ.get("VERIF_SEED", "20260925"))
+    if tier == "thorough":
+        os.environ.setdefault("VERIF_COQCHK", "1")
     P = importlib.import_module("props." + pid.lower())
     t_start = time.time()
 
